@@ -102,8 +102,10 @@ CLAIMS = {
               "zonenew family: valid zones and every single-defect perturbation incl. one-character designation changes.",
               "Lean 4 proof + source translated to Lean and proved equal to the model + differential correspondence"),
     "C14": _c("Proved: the invariant (fields are a real date/time whose second count is Unix time + offset) for every constructor, projection "
-              "and every search entry incl. gaps; exact answer of construction from fields; equality/ordering on (Unix time, ns). " + _S + _K +
-              "dtnew/dtfromlocal/dttn/dtfromtn/dtcmp/dtfrom/find families incl. exact range ends for every kind of offset.",
+              "and every search entry incl. gaps; exact answer of construction from fields; equality/ordering on (Unix time, ns), also stated on the translated "
+              "`impl PartialEq/PartialOrd for DateTime` (equality_src, ordering_src: always Some, Equal exactly when eq). " + _S + _K +
+              "dtnew/dtfromlocal/dttn/dtfromtn/dtcmp/dtfrom/find families incl. exact range ends for every kind of offset; dtcmp pairs over the whole supported "
+              "range (near the epoch, uniform, log-uniform, both range ends; second instant equal / 1 ns / 1 s / log-uniform away) with their own oracle.",
               "Lean 4 proof + source translated to Lean and proved equal to the model + differential correspondence"),
     "C15": _c("PARTIAL. Static: whole-source inventory (statics, thread_local, unsafe, Cell/Atomic/Mutex/Once/Lazy/Rc/raw pointers, env, ambient "
               "calls) regenerated into Lean each run and decided by `decide`; rustc decides Send+Sync for every public type in the harness build. "
